@@ -211,7 +211,9 @@ EvalRule(r) ==
       \* mu is the natural translation of a regular rule and tau* otherwise: when anthem returned the very same tree it is not grounded again
       gm == IF r.mu = r.tau THEN gt ELSE IF hasNat /\ r.mu = r.nat THEN gn ELSE Ground(r.mu, EmptyEnv)
       muIsOne == r.mu = r.tau \/ (hasNat /\ r.mu = r.nat)
-  IN IF Prop = "C01" THEN <<Out(r, "C01.tau_vs_semantics", HTEquiv(gt, gr, <<>>), "")>>
+  IN IF Prop = "SELF"   \* machinery self-check (MC_Eval of the plan): the scheduled evaluator against the naive one, on anthem's own output
+     THEN <<Out(r, "SELF.scheduled_vs_naive", HTEquiv(gt, Ground0(r.tau, EmptyEnv), <<>>), "")>>
+     ELSE IF Prop = "C01" THEN <<Out(r, "C01.tau_vs_semantics", HTEquiv(gt, gr, <<>>), "")>>
      ELSE <<Out(r, "C08.mu_vs_tau", HTEquiv(gm, gt, <<>>), ""),
             Out(r, "C08.mu_is_natural_or_tau_star", IF muIsOne THEN OkT ELSE BadT([note |-> "mu returned neither the natural translation nor tau*"]), "")>>
           \o (IF FullHT THEN <<Out(r, "C08.mu_vs_semantics", HTEquiv(gm, gr, <<>>), "")>> ELSE <<>>)
